@@ -6,7 +6,7 @@ PROP = 'C04'
 LEVEL = 'exploration'
 WALL_CAP = {'quick': 300, 'thorough': 3000}
 RUNS = {'quick': 5000, 'thorough': 50000}
-GROW = ['AddNode', 'AddExtraData', 'AddLooseBlock', 'CloneShape', 'AddShape', 'SetParentNode', 'DeleteShape', 'DeleteNode', 'AlphaProperty', 'RenameShape']
+GROW = ['AddNode', 'AddExtraData', 'AddLooseBlock', 'CloneShape', 'AddShape', 'SetParentNode', 'DeleteShape', 'DeleteNode', 'AlphaProperty', 'RenameShape', 'MoveBlocks', 'MoveBlocks', 'UnlinkFromNode', 'UnlinkFromNode', 'RebuildRefArray']
 RULE = ('one run = a model (sample incl. collision / ordered-node / loose-block / non-zero-root files, synthesised graph of any block type x version incl. bhk constraint chains '
         'and controller chains, API-built model with several shapes and nodes; optionally grown by API edits: clones, added nodes, re-parenting, loose blocks, duplicate shape '
         'names) + 1..5 steps of PrettySortBlocks, Optimize, SetShapeOrder (identity, reversal, permutation, duplicate name, missing name, wrong length), default Save, restart. '
@@ -48,7 +48,7 @@ def gen_plan(seed, i, tier):
         init = synth.synth_init(rng.choice(synth.VERSIONS), t, rng.below(1 << 20), k=rng.range(2, 4), helpers=8)
     plan = {'property': PROP, 'profile': 'sortprune', 'run_index': i, 'init': init, 'timeout_s': 90}
     if rng.chance(0.4):
-        grow = GROW if 'synth' not in init else ['AddNode', 'AddExtraData', 'AddLooseBlock', 'SetNodeName', 'ReplaceWithClone']
+        grow = GROW if 'synth' not in init else ['AddNode', 'AddExtraData', 'AddLooseBlock', 'SetNodeName', 'ReplaceWithClone', 'MoveBlocks', 'UnlinkFromNode', 'RebuildRefArray']
         plan['pre'] = [edits.edit_step(rng, 'quick', allow=grow, version_hint=ver) for _ in range(rng.range(1, 5))]
     steps = []
     for _ in range(rng.range(1, 5)):
